@@ -499,6 +499,131 @@ def comprehend(prog, t, depth=0):
     return tuple(comprehend(prog, x, depth) if isinstance(x, tuple) else x for x in t)
 
 
+# ---------------------------------------------------------------------------------------
+# lambda-lifted content form: a closure and `partial(module_function, captured...)` are one value
+# ---------------------------------------------------------------------------------------
+
+_META_ATTRS = {"__name__", "__doc__", "__qualname__"}
+
+
+def _sig_of(node):
+    a = node.args
+    out = [("pos", x.arg) for x in a.posonlyargs] + [("arg", x.arg) for x in a.args]
+    if a.vararg:
+        out.append(("var", a.vararg.arg))
+    out += [("kwonly", x.arg) for x in a.kwonlyargs]
+    if a.kwarg:
+        out.append(("kw", a.kwarg.arg))
+    n_def = len(a.defaults)
+    defaults = {}
+    pos = a.posonlyargs + a.args
+    for x, d in zip(pos[len(pos) - n_def:], a.defaults, strict=True):
+        defaults[x.arg] = ast.dump(d)
+    for x, d in zip(a.kwonlyargs, a.kw_defaults, strict=True):
+        if d is not None:
+            defaults[x.arg] = ast.dump(d)
+    return tuple((k, n, defaults.get(n)) for k, n in out)
+
+
+def _has_loop_terms(t):
+    return any(is_term(x) and x[0] in ("loopvar", "carried", "loopout") for x in walk(t))
+
+
+def content(prog, t, depth=0, covered=None):
+    """Replace function values by what they compute: ('lambda', signature, result, effects, guards).
+
+    Closures (captured names already replaced by the captured values) and module-level lcm helpers
+    without a reviewed form of their own are treated alike, so that lifting a closure to module level
+    and binding its former free variables with `functools.partial` yields the same normal form."""
+    covered = covered if covered is not None else covered_functions(prog)
+    if not isinstance(t, tuple):
+        return t
+    if is_term(t) and t[0] in ("closure", "func") and depth < 4:
+        fr = info = None
+        if t[0] == "closure" and len(t) == 3 and isinstance(t[2], int):
+            info = prog.closures[t[2]][0]
+            fr = prog.closure_frame(t[2])
+        elif t[0] == "func" and len(t) == 2 and t[1] in prog.funcs and t[1] not in covered \
+                and t[1].startswith("lcm.") and prog.funcs[t[1]].parent is None and prog.funcs[t[1]].cls is None:
+            info = prog.funcs[t[1]]
+            fr = prog.frame(t[1])
+        if fr is not None and not fr.unsupported and fr.ret is not None and (t[0] == "closure" or not info.node.decorator_list):
+            q = info.qualname
+            tag = f"#fn{depth}"
+
+            def lower(x):
+                x = prog.expand(x, skip=covered)
+                x = comprehend(prog, x)
+                x = content(prog, x, depth + 1, covered)
+                return _reparam(x, q, tag)
+
+            ret = lower(fr.ret)
+            eff = tuple(lower(e) for _c, e, _n in fr.effects if not _is_logging(e) and not _is_append_to_local(e, fr))
+            guards = tuple((tuple(lower(c) for c in conds if c[0] != "in-loop"), _exc_class(e)) for conds, e, _n in fr.raises)
+            if not _has_loop_terms((ret, eff, guards)):
+                return ("fn", _sig_of(info.node), ret, ("tuple", eff), guards)
+        return t
+    return tuple(content(prog, x, depth, covered) if isinstance(x, tuple) else x for x in t)
+
+
+def _reparam(t, q, tag):
+    if not isinstance(t, tuple):
+        return t
+    if is_term(t) and t[0] == "param" and t[1] == q:
+        return ("param", tag, t[2])
+    return tuple(_reparam(x, q, tag) if isinstance(x, tuple) else x for x in t)
+
+
+def beta_partial(t):
+    """partial(<lambda>, *pos, **kws): bind the parameters (beta reduction); decorator call forms unified;
+    metadata-only attribute stores (`f.__name__ = ...`) dropped."""
+    if not isinstance(t, tuple):
+        return t
+    t = tuple(beta_partial(x) if isinstance(x, tuple) else x for x in t)
+    if not is_term(t):
+        return t
+    if t[0] == "setattr" and len(t) == 4 and t[2] in _META_ATTRS:
+        return t[1]
+    if t[0] == "call" and callee_name(t) == "dags.signature.with_signature" and len(t[2]) == 1:
+        # with_signature(f, args=A) == with_signature(args=A)(f)
+        return ("call", ("call", t[1], (), t[3]), (t[2][0],), ())
+    if t[0] == "call" and callee_name(t) == "functools.partial" and t[2] and is_term(t[2][0]) and t[2][0][0] == "fn" \
+            and len(t[2][0]) == 5 and all(k is not None for k, _ in t[3]):
+        lam = t[2][0]
+        sig = list(lam[1])
+        tagname = None
+        for x in walk(lam[2:]):
+            if x[0] == "param" and isinstance(x[1], str) and x[1].startswith("#fn"):
+                tagname = x[1] if tagname is None else min(tagname, x[1])
+        binding = {}
+        pos_params = [e for e in sig if e[0] in ("pos", "arg")]
+        if len(t[2]) - 1 > len(pos_params):
+            return t
+        for e, v in zip(pos_params, t[2][1:], strict=False):
+            binding[e[1]] = v
+            sig.remove(e)
+        for k, v in t[3]:
+            e = next((e for e in sig if e[1] == k and e[0] in ("arg", "kwonly")), None)
+            if e is None:
+                return t
+            binding[k] = v
+            sig.remove(e)
+        if tagname is None and binding:
+            tagname = "#fn?"
+        m = {("param", tagname, k): v for k, v in binding.items()}
+        body = _subst_params(lam[2:], m)
+        return ("fn", tuple(sig), *body)
+    return t
+
+
+def _subst_params(t, m):
+    if not isinstance(t, tuple):
+        return t
+    if is_term(t) and t[0] == "param" and t in m:
+        return m[t]
+    return tuple(_subst_params(x, m) if isinstance(x, tuple) else x for x in t)
+
+
 def fuse_comps(t):
     """for (a, b) in (f(x) for x in X)  ==  for x in X with a := f(x)[0], b := f(x)[1]."""
     if not isinstance(t, tuple):
@@ -607,6 +732,14 @@ def compare_factory(ctx: Ctx, actual_q: str, ref_name: str, what: str, *, soft: 
     ca = sorted(c for cs in fa.closures.values() for c in cs)
     cr = sorted(c for cs in fr.closures.values() for c in cs)
     na_names, nr_names = param_names(ia.node), param_names(ir.node)
+    if len(ca) != len(cr) and len(na_names) == len(nr_names) and not fa.unsupported:
+        # nested functions were lifted out (or in): compare what the factory returns, with every function value
+        # replaced by what it computes.  Equality proves agreement; a difference proves nothing here.
+        if _lifted_equal(prog, fa, fr, ia, ir, actual_q, ref_q):
+            ctx.count("kernels")
+            ctx.ob(key, True, where, f"{what}: equals the reference form after lambda lifting (closures and "
+                   "`partial(module function, captured values)` have one normal form)", lhs=fa.ret, rhs="reference " + ref_name)
+            return
     if len(ca) != len(cr) or len(na_names) != len(nr_names) or fa.unsupported:
         if soft:
             ctx.count("restructured_not_compared")
@@ -726,6 +859,37 @@ def compare_factory(ctx: Ctx, actual_q: str, ref_name: str, what: str, *, soft: 
                       "its dataflow obligations decide the property, this comparison does not", where)
     else:
         ctx.ob(key, False, where, f"{what}: {bad[0]} differs from the reference form at {bad[1]}", lhs=bad[2], rhs=bad[3])
+
+
+def _lifted_equal(prog, fa, fr, ia, ir, actual_q, ref_q):
+    mapping = {("param", ref_q, a): ("param", actual_q, b)
+               for a, b in zip(_all_params(ir.node), _all_params(ia.node), strict=False)}
+    covered = covered_functions(prog)
+
+    def form(frame, q, is_ref):
+        eff = tuple(t for _c, t, _n in frame.effects if not _is_logging(t) and not _is_append_to_local(t, frame))
+        guards = tuple((tuple(c for c in conds if c[0] != "in-loop"), _exc_class(e)) for conds, e, _n in frame.raises)
+        t = ("tuple", (frame.ret, ("tuple", eff)))
+
+        def low(x):
+            x = prog.expand(x, skip=covered)
+            x = beta_partial(content(prog, comprehend(prog, x), 0, covered))
+            x = renumber_bv(fuse_comps(x))
+            x = strip_messages(_subst_params(x, mapping) if is_ref else x)
+            if is_ref:
+                x = _retarget(prog, x, ia.module)
+            return hoist(norm(x))
+
+        return low(t), tuple((tuple(low(c) for c in cs), e) for cs, e in guards)
+
+    try:
+        a, ga = form(fa, actual_q, False)
+        r, gr = form(fr, ref_q, True)
+    except (AnalysisError, RecursionError):
+        return False
+    if _has_loop_terms(a) or any(x[0] == "closure" for x in walk(a)):
+        return False
+    return a == r and (ga == gr or guards_equivalent(list(ga), list(gr)))
 
 
 def diff_sites(a, b):
